@@ -32,13 +32,18 @@ type MemConn struct {
 	closed       int32
 }
 
-var memPort int32 = 20000
+var memPort int32
 
-// MemPair returns two connected in-memory conns.
+// MemPair returns two connected in-memory conns. Their addresses live in 10.0.0.0/8 and are
+// unique per pair, so that they can never equal the loopback address of a real TCP session of
+// the same peer (a session id defaults to the remote address: in a 20 000-case run the old
+// 127.0.0.1:20000+2n numbering reached the ephemeral port of the control session, took over
+// its id and thereby closed it - a harness artefact reported as "other-session-broken").
 func MemPair() (a, b *MemConn) {
-	p := int(atomic.AddInt32(&memPort, 2))
-	aa := &net.TCPAddr{IP: net.IPv4(127, 0, 0, 1), Port: p}
-	ba := &net.TCPAddr{IP: net.IPv4(127, 0, 0, 1), Port: p + 1}
+	n := int(atomic.AddInt32(&memPort, 1))
+	ip := net.IPv4(10, byte(n>>16), byte(n>>8), byte(n))
+	aa := &net.TCPAddr{IP: ip, Port: 2000}
+	ba := &net.TCPAddr{IP: ip, Port: 2001}
 	x, y := newHalf(), newHalf()
 	return &MemConn{r: x, w: y, laddr: aa, raddr: ba}, &MemConn{r: y, w: x, laddr: ba, raddr: aa}
 }
